@@ -162,7 +162,7 @@ func (t Time) Add(input Quantity) (Time, error) {
 	if err != nil {
 		return Time{}, err
 	}
-	duration = roundToTimePrecision(timeMap[t.l], duration)
+	duration = wholeSeconds(t.l, roundToTimePrecision(timeMap[t.l], duration))
 	return Time{t.wrap(t.time.Add(duration)), t.l}, nil
 }
 
@@ -173,7 +173,7 @@ func (t Time) Sub(input Quantity) (Time, error) {
 	if err != nil {
 		return Time{}, err
 	}
-	duration = roundToTimePrecision(timeMap[t.l], duration)
+	duration = wholeSeconds(t.l, roundToTimePrecision(timeMap[t.l], duration))
 	return Time{t.wrap(t.time.Add(-duration)), t.l}, nil
 }
 
@@ -194,6 +194,18 @@ func roundToTimePrecision(p timePrecision, d time.Duration) time.Duration {
 		return d / time.Hour * time.Hour
 	case minute:
 		return d / time.Minute * time.Minute
+	default:
+		return d
+	}
+}
+
+// wholeSeconds drops the part of d below a second when the value has second
+// (not millisecond) precision, so that the amount never reaches a component
+// the value does not have.
+func wholeSeconds(l layout, d time.Duration) time.Duration {
+	switch l {
+	case secondLayout, dtSecondLayout, dtSecondLayoutTZ:
+		return d / time.Second * time.Second
 	default:
 		return d
 	}
